@@ -206,9 +206,40 @@ def kill_preference_reader(ctx):
 
 
 
+def kernel_kill_counts_only_a_populated_victim(ctx, tag):
+    """cgroup.kill is written - and the placeholder count of 1 reported - only for a victim that a FRESH read of cgroup.events, made in
+    this call on the victim's held descriptor, showed populated.  A write to cgroup.kill always succeeds; the fresh read is the only
+    thing that can say 'nothing was signalled' in kernel-kill mode, which is what makes the plugin fall back to the next-best victim.
+    (The per-tick memoised CgroupContext::is_populated() was sampled when the walk ranked the candidates.)"""
+    P, cg = ctx.prog, ctx.cg
+    tkc = ctx.use(ctx.fn1("Oomd::BaseKillPlugin::tryToKillCgroup"))
+    wk = tkc.calls("Fs::writeKillAt")
+    ctx.counters[tag + "_cgroup_kill_writes"] = len(wk)
+    ctx.floor(tag + "_cgroup_kill_writes", 1, "cgroup.kill writes in tryToKillCgroup")
+    fresh = locals_receiving(tkc, r"Fs::readIsPopulatedAt\(")
+    fl = Flow(P, tkc, cg=cg)
+    X = Expander(P, tkc)
+    for i in wk:
+        g = fl.guards(i)
+        ok = False
+        for nm in fresh:
+            init, v = local_init(tkc, nm, must=False)
+            if v is None or init is None or init < 0 or not re.match(r"^Oomd::Fs::readIsPopulatedAt\(param:\w+\.fd\(\)\)$", X(init)):
+                continue
+            if any(isinstance(k, str) and p is True and re.match(r"^(\*%s|%s\.value\(\)|\*?%s\.operator\*\(\))$" % ((re.escape(nm),) * 3), k) for k, p in g):
+                ok = True
+        ctx.check(ok, "%s:kernel-kill-counts-only-a-populated-victim@%d" % (tag, tkc.nodes[i].get("line", 0)), "guarded_by + provenance (fresh read)", tkc.loc(i),
+                  "cgroup.kill is written only after a fresh cgroup.events read of the victim said 'populated'",
+                  "the write to cgroup.kill at line %d is not dominated by 'populated' from Fs::readIsPopulatedAt(target.fd()) read in this call (a memoised "
+                  "per-tick value, or no test at all): a victim that emptied since it was ranked is reported as killed (placeholder count 1) - counters, "
+                  "post-action delay and STOP for a kill that signalled nothing, and no fall-back to the next-best cgroup" % tkc.nodes[i].get("line", 0),
+                  witness_path(tkc, fl, i))
+
+
 def run(ctx):
     from .C01 import children_are_direct
     children_are_direct(ctx)
+    kernel_kill_counts_only_a_populated_victim(ctx, "C03")
     # locals / parameters the rules below refer to by name (a rename makes the analysis 'broken', never a violation)
     ctx.anchor(ctx.fn1('Oomd::BaseKillPlugin::resumeTryingToKillSomething'), 'candidate', 'nextBestOptionStack', 'sorted')
     ctx.anchor(ctx.fn1('Oomd::BaseKillPlugin::tryToKillSomething'), 'sorted', 'nextBestOptionStack')
